@@ -300,6 +300,9 @@ func (sa *Safe) rankLoop(fr *frame, h *ssa.BasicBlock, latches []*ssa.BasicBlock
 	if !taken {
 		return "R-none(back edge unreachable)", true, ""
 	}
+	if so := findShiftOut(h); so != nil {
+		return fmt.Sprintf("R-shiftout(%s is 0 after at most %d shifts)", phiName(so.b), so.n), true, ""
+	}
 	var whyRank []string
 	// R-rank
 	for _, ins := range h.Instrs {
